@@ -715,4 +715,438 @@ theorem invL_reachable {a : Bool} {s : St} (h : Reachable a s) : InvL s := by
   obtain ⟨es, hes⟩ := h
   exact runFrom_inv invL_step (invL_init a) hes
 
+/-! ## the ghost history: `InvG` -/
+
+theorem get_app {α : Type} {l : List α} {i : Nat} {x : α} (h : l[i]? = some x) (l' : List α) :
+    (l ++ l')[i]? = some x := by
+  have hi : i < l.length := by
+    rcases Nat.lt_or_ge i l.length with h' | h'
+    · exact h'
+    · rw [List.getElem?_eq_none h'] at h; contradiction
+  rw [List.getElem?_append_left hi]; exact h
+
+theorem get_last {α : Type} (l : List α) (x : α) : (l ++ [x])[l.length]? = some x := by simp
+
+theorem get_lt {α : Type} {l : List α} {i : Nat} {x : α} (h : l[i]? = some x) : i < l.length := by
+  rcases Nat.lt_or_ge i l.length with h' | h'
+  · exact h'
+  · rw [List.getElem?_eq_none h'] at h; contradiction
+
+/-- the value of `activated` / `triggered` explained by the history -/
+def actStep (b : Bool) : HEv → Bool
+  | .setActive _ => true
+  | .setInactive _ => false
+  | _ => b
+def trigStep (b : Bool) : HEv → Bool
+  | .setTrig _ => true
+  | .clear _ => false
+  | _ => b
+def actOf (h : List HEv) : Bool := h.foldl actStep false
+def trigOf (h : List HEv) : Bool := h.foldl trigStep false
+
+theorem actOf_snoc (h : List HEv) (e : HEv) : actOf (h ++ [e]) = actStep (actOf h) e := by
+  simp [actOf, List.foldl_append]
+theorem trigOf_snoc (h : List HEv) (e : HEv) : trigOf (h ++ [e]) = trigStep (trigOf h) e := by
+  simp [trigOf, List.foldl_append]
+
+/-- what a waiter that is about to return `true` knows, given the activation `o` it observed -/
+def ResOk (hist : List HEv) (o : Option Nat) (k : WKind) : Prop :=
+  (k.side = .trig → ∀ ci, o = some ci → ∃ (g : Nat) (u : Tid), ci < g ∧ hist[g]? = some (HEv.setTrig u)) ∧
+  (k.side = .act → ∃ (a : Nat) (u : Tid), hist[a]? = some (HEv.setActive u))
+
+theorem ResOk.app {hist : List HEv} {o : Option Nat} {k : WKind} (h : ResOk hist o k) (l : List HEv) :
+    ResOk (hist ++ l) o k := by
+  refine ⟨?_, ?_⟩
+  · intro hk ci ho; obtain ⟨g, u, h1, h2⟩ := h.1 hk ci ho; exact ⟨g, u, h1, get_app h2 l⟩
+  · intro hk; obtain ⟨a, u, h2⟩ := h.2 hk; exact ⟨a, u, get_app h2 l⟩
+
+/-- the observed activation: its clear step and its set-active step are in the history -/
+def ObsWf (hist : List HEv) (ci : Nat) : Prop :=
+  ∃ (u : Tid) (a : Nat), hist[ci]? = some (HEv.clear u) ∧ ci < a ∧ hist[a]? = some (HEv.setActive u)
+
+theorem ObsWf.app {hist : List HEv} {ci : Nat} (h : ObsWf hist ci) (l : List HEv) : ObsWf (hist ++ l) ci := by
+  obtain ⟨u, a, h1, h2, h3⟩ := h; exact ⟨u, a, get_app h1 l, h2, get_app h3 l⟩
+
+structure InvG (s : St) : Prop where
+  lastLt : s.lastClear < s.hist.length
+  trigHist : s.flag .trig = true → ∃ g u, s.lastClear < g ∧ s.hist[g]? = some (.setTrig u)
+  obsLe : ∀ t ci, s.obs t = some ci → ci ≤ s.lastClear
+  actLe : s.actClear ≤ s.lastClear
+  myLe : ∀ t, (s.pc t).pending = true → s.myClear t ≤ s.lastClear
+  res : ∀ t k, (s.pc t = .wUnlock k true ∨ s.pc t = .wRet k true) → ResOk s.hist (s.obs t) k
+  actEq : s.flag .act = actOf s.hist
+  trigEq : s.flag .trig = trigOf s.hist
+  myWf : ∀ t, (s.pc t).pending = true → s.hist[s.myClear t]? = some (.clear t)
+  actWf : s.flag .act = true → ObsWf s.hist s.actClear
+  obsWf : ∀ t ci, s.obs t = some ci → ObsWf s.hist ci
+  calledTrig : ∀ t k, s.pc t = .wCalled k → k.side = .trig
+  resetInv : ∀ t, s.pc t = .rStore → s.flag .trig = true ∨ ∃ u, (s.pc u).pending = true
+  resetDone : (∃ u, HEv.setInactive u ∈ s.hist) → s.flag .act = false →
+    s.flag .trig = true ∨ ∃ u, (s.pc u).pending = true
+
+theorem invG_init (a : Bool) : InvG (init a) := by
+  cases a <;> constructor <;> simp [init, Pc.pending, actOf, trigOf, actStep, trigStep, ObsWf]
+  exact ⟨1, by decide, by decide⟩
+
+/-- thread `t` changes its pc and possibly the activation it observed; flags and history unchanged -/
+theorem invG_pc {s s' : St} {t : Tid} {p' : Pc} {o : Option Nat} (h : InvG s)
+    (eh : s'.hist = s.hist) (ef : s'.flag = s.flag) (elc : s'.lastClear = s.lastClear)
+    (eac : s'.actClear = s.actClear) (emc : s'.myClear = s.myClear)
+    (eo : ∀ u, u ≠ t → s'.obs u = s.obs u) (eot : s'.obs t = o) (ep : s'.pc = upd s.pc t p')
+    (ho : o = s.obs t ∨ o = none ∨ (o = some s.actClear ∧ s.flag .act = true))
+    (hpend : p'.pending = (s.pc t).pending)
+    (hres : ∀ k, (p' = .wUnlock k true ∨ p' = .wRet k true) → ResOk s.hist o k)
+    (hcl : ∀ k, p' = .wCalled k → k.side = .trig)
+    (hrs : p' = .rStore → s.flag .trig = true ∨ ∃ u, (s.pc u).pending = true) :
+    InvG s' := by
+  have hpw : ∀ u, (s.pc u).pending = true → (s'.pc u).pending = true := by
+    intro u hu; rw [ep]; by_cases hut : u = t
+    · subst hut; simp [hpend, hu]
+    · simp [hut, hu]
+  have hobs : ∀ u ci, s'.obs u = some ci → (u ≠ t ∧ s.obs u = some ci) ∨ (u = t ∧ o = some ci) := by
+    intro u ci hx; by_cases hut : u = t
+    · subst hut; rw [eot] at hx; exact Or.inr ⟨rfl, hx⟩
+    · rw [eo u hut] at hx; exact Or.inl ⟨hut, hx⟩
+  obtain ⟨h1, h2, h3, h4, h5, h6, h7, h8, h9, h10, h11, h12, h13, h14⟩ := h
+  refine ⟨?_, ?_, ?_, ?_, ?_, ?_, ?_, ?_, ?_, ?_, ?_, ?_, ?_, ?_⟩
+  · rw [eh, elc]; exact h1
+  · rw [eh, elc, ef]; exact h2
+  · intro u ci hx; rw [elc]
+    rcases hobs u ci hx with ⟨_, hx⟩ | ⟨_, hx⟩
+    · exact h3 u ci hx
+    · rcases ho with ho | ho | ⟨ho, _⟩
+      · exact h3 t ci (by rw [← ho]; exact hx)
+      · rw [ho] at hx; contradiction
+      · rw [ho] at hx; injection hx with hx; subst hx; exact h4
+  · rw [eac, elc]; exact h4
+  · intro u; rw [ep, emc, elc]; by_cases hut : u = t
+    · subst hut; simp [hpend]; exact h5 u
+    · simp [hut]; exact h5 u
+  · intro u k; rw [ep, eh]; by_cases hut : u = t
+    · subst hut; simp [eot]; exact hres k
+    · simp [hut, eo u hut]; exact h6 u k
+  · rw [ef, eh]; exact h7
+  · rw [ef, eh]; exact h8
+  · intro u; rw [ep, emc, eh]; by_cases hut : u = t
+    · subst hut; simp [hpend]; exact h9 u
+    · simp [hut]; exact h9 u
+  · rw [ef, eh, eac]; exact h10
+  · intro u ci hx; rw [eh]
+    rcases hobs u ci hx with ⟨_, hx⟩ | ⟨_, hx⟩
+    · exact h11 u ci hx
+    · rcases ho with ho | ho | ⟨ho, hact⟩
+      · exact h11 t ci (by rw [← ho]; exact hx)
+      · rw [ho] at hx; contradiction
+      · rw [ho] at hx; injection hx with hx; subst hx; exact h10 hact
+  · intro u k; rw [ep]; by_cases hut : u = t
+    · subst hut; simp; exact hcl k
+    · simp [hut]; exact h12 u k
+  · intro u; rw [ep, ef]; by_cases hut : u = t
+    · subst hut; simp; intro hx
+      rcases hrs hx with hx | ⟨w, hw⟩
+      · exact Or.inl hx
+      · exact Or.inr ⟨w, by have := hpw w hw; rwa [ep] at this⟩
+    · simp [hut]; intro hx
+      rcases h13 u hx with hx | ⟨w, hw⟩
+      · exact Or.inl hx
+      · exact Or.inr ⟨w, by have := hpw w hw; rwa [ep] at this⟩
+  · rw [eh, ef]; intro hx hy
+    rcases h14 hx hy with hx | ⟨w, hw⟩
+    · exact Or.inl hx
+    · exact Or.inr ⟨w, hpw w hw⟩
+
+/-- the clear step of `activate()` -/
+theorem invG_clear {s s' : St} {t : Tid} (h : InvG s) (hpc : s.pc t = .aClear)
+    (eh : s'.hist = s.hist ++ [HEv.clear t]) (ef : s'.flag = updS s.flag .trig false)
+    (elc : s'.lastClear = s.hist.length) (eac : s'.actClear = s.actClear)
+    (emc : s'.myClear = upd s.myClear t s.hist.length) (eo : s'.obs = s.obs)
+    (ep : s'.pc = upd s.pc t .aUnlockT) : InvG s' := by
+  obtain ⟨h1, h2, h3, h4, h5, h6, h7, h8, h9, h10, h11, h12, h13, h14⟩ := h
+  have hpt : (s'.pc t).pending = true := by rw [ep]; simp [Pc.pending]
+  refine ⟨?_, ?_, ?_, ?_, ?_, ?_, ?_, ?_, ?_, ?_, ?_, ?_, ?_, ?_⟩
+  · rw [eh, elc]; simp
+  · rw [ef]; simp [updS]
+  · intro u ci hx; rw [eo] at hx; rw [elc]; have := h3 u ci hx; omega
+  · rw [eac, elc]; omega
+  · intro u; rw [ep, emc, elc]; by_cases hut : u = t
+    · subst hut; simp
+    · simp [hut, upd_apply]; intro hx; have := h5 u hx; omega
+  · intro u k; rw [ep, eh, eo]; by_cases hut : u = t
+    · subst hut; simp
+    · simp [hut]; intro hx; exact (h6 u k hx).app _
+  · rw [ef, eh, actOf_snoc]; simp [updS, actStep]; exact h7
+  · rw [ef, eh, trigOf_snoc]; simp [updS, trigStep]
+  · intro u; rw [ep, emc, eh]; by_cases hut : u = t
+    · subst hut; simp
+    · simp [hut, upd_apply]; intro hx; exact get_app (h9 u hx) _
+  · rw [ef, eh, eac]; simp [updS]; intro hx; exact (h10 hx).app _
+  · intro u ci hx; rw [eo] at hx; rw [eh]; exact (h11 u ci hx).app _
+  · intro u k; rw [ep]; by_cases hut : u = t
+    · subst hut; simp
+    · simp [hut]; exact h12 u k
+  · intro u _; exact Or.inr ⟨t, hpt⟩
+  · intro _ _; exact Or.inr ⟨t, hpt⟩
+
+/-- the set-active step of `activate()` -/
+theorem invG_setActive {s s' : St} {t : Tid} {nt : Bool} (hl : InvL s) (h : InvG s)
+    (hpc : s.pc t = .aHold false nt)
+    (eh : s'.hist = s.hist ++ [HEv.setActive t]) (ef : s'.flag = updS s.flag .act true)
+    (elc : s'.lastClear = s.lastClear) (eac : s'.actClear = s.myClear t)
+    (emc : s'.myClear = s.myClear) (eo : s'.obs = s.obs)
+    (ep : s'.pc = upd s.pc t (.aHold true nt)) : InvG s' := by
+  obtain ⟨h1, h2, h3, h4, h5, h6, h7, h8, h9, h10, h11, h12, h13, h14⟩ := h
+  have hpt : (s.pc t).pending = true := by simp [hpc, Pc.pending]
+  have hmy := h5 t hpt
+  refine ⟨?_, ?_, ?_, ?_, ?_, ?_, ?_, ?_, ?_, ?_, ?_, ?_, ?_, ?_⟩
+  · rw [eh, elc]; simp; omega
+  · rw [ef, eh, elc]; simp [updS]; intro hx
+    obtain ⟨g, u, hg, hu⟩ := h2 hx; exact ⟨g, hg, u, get_app hu _⟩
+  · intro u ci hx; rw [eo] at hx; rw [elc]; exact h3 u ci hx
+  · rw [eac, elc]; exact hmy
+  · intro u; rw [ep, emc, elc]; by_cases hut : u = t
+    · subst hut; simp [Pc.pending]
+    · simp [hut]; exact h5 u
+  · intro u k; rw [ep, eh, eo]; by_cases hut : u = t
+    · subst hut; simp
+    · simp [hut]; intro hx; exact (h6 u k hx).app _
+  · rw [ef, eh, actOf_snoc]; simp [updS, actStep]
+  · rw [ef, eh, trigOf_snoc]; simp [updS, trigStep]; exact h8
+  · intro u; rw [ep, emc, eh]; by_cases hut : u = t
+    · subst hut; simp [Pc.pending]
+    · simp [hut]; intro hx; exact get_app (h9 u hx) _
+  · intro _; rw [eh, eac]
+    exact ⟨t, s.hist.length, get_app (h9 t hpt) _, by omega, get_last _ _⟩
+  · intro u ci hx; rw [eo] at hx; rw [eh]; exact (h11 u ci hx).app _
+  · intro u k; rw [ep]; by_cases hut : u = t
+    · subst hut; simp
+    · simp [hut]; exact h12 u k
+  · intro u; rw [ep]; by_cases hut : u = t
+    · subst hut; simp
+    · simp [hut]; intro hx
+      exact absurd (holder_unique hl (m := .act) (t := t) (u := u) (by simp [hpc, Pc.holds]) (by simp [hx, Pc.holds])) hut
+  · rw [ef]; simp [updS]
+
+/-- the set-triggered step of `trigger()` -/
+theorem invG_setTrig {s s' : St} {t : Tid} {x : Ctx} {nt : Bool} (h : InvG s)
+    (hpc : s.pc t = .tHold x false nt)
+    (eh : s'.hist = s.hist ++ [HEv.setTrig t]) (ef : s'.flag = updS s.flag .trig true)
+    (elc : s'.lastClear = s.lastClear) (eac : s'.actClear = s.actClear)
+    (emc : s'.myClear = s.myClear) (eo : s'.obs = s.obs)
+    (ep : s'.pc = upd s.pc t (.tHold x true nt)) : InvG s' := by
+  obtain ⟨h1, h2, h3, h4, h5, h6, h7, h8, h9, h10, h11, h12, h13, h14⟩ := h
+  refine ⟨?_, ?_, ?_, ?_, ?_, ?_, ?_, ?_, ?_, ?_, ?_, ?_, ?_, ?_⟩
+  · rw [eh, elc]; simp; omega
+  · intro _; rw [eh, elc]; exact ⟨s.hist.length, t, h1, get_last _ _⟩
+  · intro u ci hx; rw [eo] at hx; rw [elc]; exact h3 u ci hx
+  · rw [eac, elc]; exact h4
+  · intro u; rw [ep, emc, elc]; by_cases hut : u = t
+    · subst hut; simp [Pc.pending]
+    · simp [hut]; exact h5 u
+  · intro u k; rw [ep, eh, eo]; by_cases hut : u = t
+    · subst hut; simp
+    · simp [hut]; intro hx; exact (h6 u k hx).app _
+  · rw [ef, eh, actOf_snoc]; simp [updS, actStep]; exact h7
+  · rw [ef, eh, trigOf_snoc]; simp [updS, trigStep]
+  · intro u; rw [ep, emc, eh]; by_cases hut : u = t
+    · subst hut; simp [Pc.pending]
+    · simp [hut]; intro hx; exact get_app (h9 u hx) _
+  · rw [ef, eh, eac]; simp [updS]; intro hx; exact (h10 hx).app _
+  · intro u ci hx; rw [eo] at hx; rw [eh]; exact (h11 u ci hx).app _
+  · intro u k; rw [ep]; by_cases hut : u = t
+    · subst hut; simp
+    · simp [hut]; exact h12 u k
+  · intro u _; rw [ef]; exact Or.inl (by simp [updS])
+  · intro _ _; rw [ef]; exact Or.inl (by simp [updS])
+
+/-- the set-inactive step of `reset()` -/
+theorem invG_setInactive {s s' : St} {t : Tid} (h : InvG s) (hpc : s.pc t = .rStore)
+    (eh : s'.hist = s.hist ++ [HEv.setInactive t]) (ef : s'.flag = updS s.flag .act false)
+    (elc : s'.lastClear = s.lastClear) (eac : s'.actClear = s.actClear)
+    (emc : s'.myClear = s.myClear) (eo : s'.obs = s.obs)
+    (ep : s'.pc = upd s.pc t (.rUnlock true)) : InvG s' := by
+  obtain ⟨h1, h2, h3, h4, h5, h6, h7, h8, h9, h10, h11, h12, h13, h14⟩ := h
+  have hkeep : (s.flag .trig = true ∨ ∃ u, (s.pc u).pending = true) →
+      (s'.flag .trig = true ∨ ∃ u, (s'.pc u).pending = true) := by
+    intro hx; rcases hx with hx | ⟨w, hw⟩
+    · exact Or.inl (by rw [ef]; simpa [updS] using hx)
+    · refine Or.inr ⟨w, ?_⟩
+      rw [ep]; by_cases hwt : w = t
+      · subst hwt; simp [hpc, Pc.pending] at hw
+      · simp [hwt, hw]
+  refine ⟨?_, ?_, ?_, ?_, ?_, ?_, ?_, ?_, ?_, ?_, ?_, ?_, ?_, ?_⟩
+  · rw [eh, elc]; simp; omega
+  · rw [ef, eh, elc]; simp [updS]; intro hx
+    obtain ⟨g, u, hg, hu⟩ := h2 hx; exact ⟨g, hg, u, get_app hu _⟩
+  · intro u ci hx; rw [eo] at hx; rw [elc]; exact h3 u ci hx
+  · rw [eac, elc]; exact h4
+  · intro u; rw [ep, emc, elc]; by_cases hut : u = t
+    · subst hut; simp [Pc.pending]
+    · simp [hut]; exact h5 u
+  · intro u k; rw [ep, eh, eo]; by_cases hut : u = t
+    · subst hut; simp
+    · simp [hut]; intro hx; exact (h6 u k hx).app _
+  · rw [ef, eh, actOf_snoc]; simp [updS, actStep]
+  · rw [ef, eh, trigOf_snoc]; simp [updS, trigStep]; exact h8
+  · intro u; rw [ep, emc, eh]; by_cases hut : u = t
+    · subst hut; simp [Pc.pending]
+    · simp [hut]; intro hx; exact get_app (h9 u hx) _
+  · rw [ef]; simp [updS]
+  · intro u ci hx; rw [eo] at hx; rw [eh]; exact (h11 u ci hx).app _
+  · intro u k; rw [ep]; by_cases hut : u = t
+    · subst hut; simp
+    · simp [hut]; exact h12 u k
+  · intro u hx; apply hkeep; rw [ep] at hx; by_cases hut : u = t
+    · subst hut; simp at hx
+    · simp [hut] at hx; exact h13 u hx
+  · intro _ _; exact hkeep (h13 t hpc)
+
+/-- a waiter that reads its flag as `true` under the mutex knows its event has happened -/
+theorem resOk_of_flag {s : St} (h : InvG s) (t : Tid) (k : WKind) (hf : s.flag k.side = true) :
+    ResOk s.hist (s.obs t) k := by
+  refine ⟨?_, ?_⟩
+  · intro hk ci ho; rw [hk] at hf
+    obtain ⟨g, u, hg, hu⟩ := h.trigHist hf
+    exact ⟨g, u, by have := h.obsLe t ci ho; omega, hu⟩
+  · intro hk; rw [hk] at hf
+    obtain ⟨u, a, _, _, ha⟩ := h.actWf hf
+    exact ⟨a, u, ha⟩
+
+macro "gcs" hpc:ident : tactic =>
+  `(tactic| (intros; simp_all [$hpc:ident, Pc.pending, Ctx.after, WKind.side]))
+
+/-- pc-only move that leaves the observation alone -/
+macro "gpc" h:ident hpc:ident : tactic =>
+  `(tactic| exact invG_pc $h rfl rfl rfl rfl rfl (fun _ _ => rfl) rfl rfl (Or.inl rfl) (by gcs $hpc) (by gcs $hpc)
+      (by gcs $hpc) (by gcs $hpc))
+
+theorem invG_step (s : St) (t : Tid) (e : Ev) (s' : St) (hl : InvL s) (h : InvG s)
+    (hs : step s t e = some s') : InvG s' := by
+  unfold step at hs
+  split at hs
+  case h_1 | h_2 | h_7 | h_8 | h_9 | h_40 =>
+    rename_i hpc; injection hs with hs; subst hs; gpc h hpc
+  case h_3 | h_4 | h_5 | h_6 =>
+    rename_i hpc; injection hs with hs; subst hs
+    exact invG_pc h rfl rfl rfl rfl rfl (fun u hu => by simp [hu]) (by simp) rfl (Or.inr (Or.inl rfl))
+      (by gcs hpc) (by gcs hpc)
+      (by intro k hx; first | (injection hx with hx; subst hx; rfl) | (injection hx)) (by gcs hpc)
+  case h_10 | h_34 =>
+    rename_i v hpc; split at hs
+    · injection hs with hs; subst hs; cases v <;> gpc h hpc
+    · contradiction
+  case h_11 | h_14 | h_33 | h_37 =>
+    rename_i hpc; obtain ⟨hm, rfl⟩ := acquire_some hs; gpc h hpc
+  case h_12 =>
+    rename_i hpc; injection hs with hs; subst hs
+    exact invG_clear h hpc rfl rfl rfl rfl rfl rfl rfl
+  case h_13 | h_17 | h_36 | h_39 =>
+    rename_i hpc; obtain ⟨hm, rfl⟩ := release_some hs; gpc h hpc
+  case h_15 =>
+    rename_i nt hpc; injection hs with hs; subst hs
+    exact invG_setActive hl h hpc rfl rfl rfl rfl rfl rfl rfl
+  case h_16 =>
+    rename_i st hpc; injection hs with hs; subst hs; cases st <;> gpc h hpc
+  case h_18 | h_24 | h_32 | h_42 | h_41 =>
+    rename_i hpc; split at hs
+    · injection hs with hs; subst hs; gpc h hpc
+    · contradiction
+  case h_19 =>
+    rename_i x v hpc; split at hs
+    · injection hs with hs; subst hs; cases v <;> cases x <;> gpc h hpc
+    · contradiction
+  case h_20 =>
+    rename_i x hpc; obtain ⟨hm, rfl⟩ := acquire_some hs; gpc h hpc
+  case h_21 =>
+    rename_i x nt hpc; injection hs with hs; subst hs
+    exact invG_setTrig h hpc rfl rfl rfl rfl rfl rfl rfl
+  case h_22 =>
+    rename_i x st hpc; injection hs with hs; subst hs; gpc h hpc
+  case h_23 =>
+    rename_i x hpc; obtain ⟨hm, rfl⟩ := release_some hs; cases x <;> gpc h hpc
+  case h_25 =>
+    rename_i k v hpc; split at hs
+    · rename_i hv; injection hs with hs; subst hs
+      have hk := h.calledTrig t k hpc
+      cases v
+      · refine invG_pc h rfl rfl rfl rfl rfl (fun u hu => by simp [hu]) (by simp) rfl (Or.inr (Or.inl rfl))
+          (by gcs hpc) ?_ (by gcs hpc) (by gcs hpc)
+        intro k' hx; simp at hx; subst hx
+        exact ⟨by intro _ ci hc; contradiction, by intro hx; rw [hk] at hx; contradiction⟩
+      · exact invG_pc h rfl rfl rfl rfl rfl (fun u hu => by simp [hu]) (by simp) rfl
+          (Or.inr (Or.inr ⟨rfl, hv.symm⟩)) (by gcs hpc) (by gcs hpc) (by gcs hpc) (by gcs hpc)
+    · contradiction
+  case h_26 =>
+    rename_i k m hpc; split at hs
+    · obtain ⟨hm, rfl⟩ := acquire_some hs; gpc h hpc
+    · contradiction
+  case h_27 =>
+    rename_i k f a v hpc; split at hs
+    · rename_i hg; obtain ⟨ha, hv⟩ := hg; subst ha; injection hs with hs; subst hs
+      cases v
+      · gpc h hpc
+      · refine invG_pc h rfl rfl rfl rfl rfl (fun _ _ => rfl) rfl rfl (Or.inl rfl) (by gcs hpc) ?_
+          (by gcs hpc) (by gcs hpc)
+        intro k' hx; simp at hx; subst hx; exact resOk_of_flag h t k hv.symm
+    · contradiction
+  case h_28 =>
+    rename_i k m hpc; split at hs
+    · injection hs with hs; subst hs; gpc h hpc
+    · contradiction
+  case h_29 =>
+    rename_i k m r hpc; split at hs
+    · split at hs
+      · split at hs
+        · contradiction
+        · injection hs with hs; subst hs; gpc h hpc
+      · split at hs
+        · injection hs with hs; subst hs; gpc h hpc
+        · contradiction
+      · split at hs
+        · injection hs with hs; subst hs; gpc h hpc
+        · contradiction
+    · contradiction
+  case h_30 =>
+    rename_i k a v hpc; split at hs
+    · rename_i hg; obtain ⟨ha, hv⟩ := hg; subst ha; injection hs with hs; subst hs
+      cases v
+      · gpc h hpc
+      · refine invG_pc h rfl rfl rfl rfl rfl (fun _ _ => rfl) rfl rfl (Or.inl rfl) (by gcs hpc) ?_
+          (by gcs hpc) (by gcs hpc)
+        intro k' hx; simp at hx; subst hx; exact resOk_of_flag h t k hv.symm
+    · contradiction
+  case h_31 =>
+    rename_i k r m hpc; split at hs
+    · obtain ⟨hm, rfl⟩ := release_some hs
+      refine invG_pc h rfl rfl rfl rfl rfl (fun _ _ => rfl) rfl rfl (Or.inl rfl) (by gcs hpc) ?_
+        (by gcs hpc) (by gcs hpc)
+      intro k' hx; simp at hx; obtain ⟨hx, hr⟩ := hx; subst hx; subst hr
+      exact h.res t k (Or.inl hpc)
+    · contradiction
+  case h_35 =>
+    rename_i o v hpc; split at hs
+    · rename_i hv; injection hs with hs; subst hs
+      cases v
+      · gpc h hpc
+      · exact invG_pc h rfl rfl rfl rfl rfl (fun _ _ => rfl) rfl rfl (Or.inl rfl) (by gcs hpc) (by gcs hpc)
+          (by gcs hpc) (fun _ => Or.inl hv.symm)
+    · contradiction
+  case h_38 =>
+    rename_i hpc; injection hs with hs; subst hs
+    exact invG_setInactive h hpc rfl rfl rfl rfl rfl rfl rfl
+  case h_43 => contradiction
+
+/-- the full invariant -/
+structure Inv (s : St) : Prop where
+  l : InvL s
+  g : InvG s
+
+theorem inv_init (a : Bool) : Inv (init a) := ⟨invL_init a, invG_init a⟩
+
+theorem inv_step (s : St) (t : Tid) (e : Ev) (s' : St) (h : Inv s) (hs : step s t e = some s') : Inv s' :=
+  ⟨invL_step s t e s' h.l hs, invG_step s t e s' h.l h.g hs⟩
+
+theorem inv_reachable {a : Bool} {s : St} (h : Reachable a s) : Inv s := by
+  obtain ⟨es, hes⟩ := h
+  exact runFrom_inv inv_step (inv_init a) hes
+
 end ConcVerif.Trigger
